@@ -55,7 +55,7 @@ def sumAt (labels : List Nat) (id : Nat) (xs : List F) : F := fsum (pick labels 
 
 /-- the rows of the previous holders `Q` (ascending row order) and their labels -/
 def State.rowsQ (e : State F) (Q : List Nat) : Mat F := pickSet e.labels Q e.M
-def State.labelsQ (e : State F) (Q : List Nat) : List Nat := pickSet e.labels Q e.labels
+def State.labelsQ (e : State F) (Q : List Nat) : List Nat := e.labels.filter fun l => Q.contains l
 def State.sharesQ (e : State F) (Q : List Nat) : List F := pickSet e.labels Q e.shares
 
 /-- `ConvertShareToAdditive`: `aᵢ = Σ_{rows k of i within Q} c_k λ_k` for every `i ∈ Q` (in the order of `Q`) -/
